@@ -293,7 +293,8 @@ _LKT = [_lk('spinlock_t2_r3_p5', 0, 2, 3, 5, 'eventpp::SpinLock (real code)', bu
 _LKQUEUE = [Run('spinlock_queue_t3_p3', 'spinlock.cpp', {'LOCKKIND': 3, 'TT': 3, 'RR': 1}, preempt=3, covers=2, mt=True, native=(), linetables=True, bounds='EventQueue under GeneralThreading<SpinLock> (real SpinLock on IR atomics): 2 producers x 1 enqueue + 1 consumer (process, processOne), a recycled slot exists at the start, P<=3; after the join the queue is drained: every event exactly once, per producer in order'),
             _lk('spinlock_t2_r2_p4', 0, 2, 2, 4, 'eventpp::SpinLock (real code)')]
 PROPS['C03'] = Prop(
-    quick=_LKQ + [Run('cl_threads_s1_hooks_p2', 'cl_threads.cpp', {'TT': 2, 'SS': 1}, preempt=2, covers=4, optional_covers=(2,), mt=True, bounds=_TH % ('CallbackList', 'instrumented policy', 2, 1, 2, _SP_HOOKS)),
+    quick=_LKQ + [Run('cl_threads_s1_wrap_hooks_p2', 'cl_threads.cpp', {'TT': 2, 'SS': 1, 'WRAPC': None}, preempt=2, covers=4, optional_covers=(0, 1, 2, 3), mt=True, bounds=_TH % ('CallbackList whose generation counter is 0..1 additions before its wrap (C03 x C19)', 'instrumented policy', 2, 1, 2, _SP_HOOKS)),
+           Run('cl_threads_s1_hooks_p2', 'cl_threads.cpp', {'TT': 2, 'SS': 1}, preempt=2, covers=4, optional_covers=(2,), mt=True, bounds=_TH % ('CallbackList', 'instrumented policy', 2, 1, 2, _SP_HOOKS)),
            Run('cl_threads_s2_hooks_p1', 'cl_threads.cpp', {'TT': 2, 'SS': 2, 'OPSET': 1}, preempt=1, covers=4, mt=True, bounds=_TH % ('CallbackList', 'instrumented policy', 2, 2, 1, _SP_HOOKS) + '; reduced operation alphabet (append, prepend, insert-before-B, remove B, ownsHandle B, invoke)'),
            Run('cl_threads_s1_auto_p2', 'cl_threads.cpp', {'TT': 2, 'SS': 1}, preempt=2, covers=4, optional_covers=(2,), mt=True, shared_points=True, native=(), bounds=_TH % ('CallbackList', 'instrumented policy', 2, 1, 2, _SP_AUTO)),
            Run('cl_threads_s1_empty_hooks_p2', 'cl_threads.cpp', {'TT': 2, 'SS': 1, 'INIT': 0}, preempt=2, covers=4, optional_covers=(0, 1, 2), mt=True, bounds=_TH % ('CallbackList', 'instrumented policy', 2, 1, 2, _SP_HOOKS) + '; list initially EMPTY (handles A, B are empty handles)'),
